@@ -21,7 +21,7 @@ RULE = (
     "messages expunged by UID EXPUNGE so that UID != sequence number; optionally the \\Recent of a prefix consumed) with "
     "distinct paddings, INTERNALDATEs and Date headers clustered +-2 days around a base date at hours 0/1/11-13/22/23 "
     "in zones -1200..+1400, tokens from a 16-token pool planted in From/To/Cc/Bcc/Subject(folded)/repeated Comments/"
-    "body parts and 4 never-planted tokens; then 4-10 steps in ONE session: SEARCH / UID SEARCH of a program from the "
+    "body parts and 4 never-planted tokens; then 4-10 (thorough: 4-14) steps in ONE session: SEARCH / UID SEARCH of a program from the "
     "RFC 3501 grammar (depth <= 3 (4), every key, NOT/OR/parenthesised lists/juxtaposition, arguments taken relative "
     "to the mailbox: size+-1, date+-2d, seq and UID sets incl. *, reversed ranges, absent UIDs; atom/quoted/literal "
     "strings, key and month case, quoted dates, CHARSET), law steps (NOT p vs ALL minus p; OR; p q vs (p q) vs "
